@@ -25,6 +25,19 @@ from ..src import AnalysisError, repo_root
 def _apply(root: Path, edits):
     from . import transforms
     for file, old, new in edits:
+        if old == "@patch":
+            import subprocess
+            r = subprocess.run(["git", "apply", "--include=tdgl/*", new], cwd=root, capture_output=True, text=True)
+            if r.returncode != 0:
+                r = subprocess.run(["patch", "-p1", "-s", "-f", "-i", new], cwd=root, capture_output=True, text=True)
+                if r.returncode != 0:
+                    return f"skipped: patch {Path(new).name} does not apply to the current tree"
+            for q in (root / "tdgl").rglob("*.py"):
+                try:
+                    ast.parse(q.read_text())
+                except SyntaxError as e:
+                    return f"skipped: patched file does not parse ({e})"
+            continue
         p = root / "tdgl" / file
         s = p.read_text()
         if old == "@rename_locals":
